@@ -59,6 +59,12 @@ def _string(draw, allow_semicolon):
             chars.append(ord(other))
     if allow_semicolon and chars:
         chars.insert(draw(st.integers(0, len(chars))), ord(';'))
+    if allow_semicolon and draw(st.integers(0, 15)) == 0:
+        # a string that begins like the character literals '\' or ''' followed by something an expression could go on
+        # with, and holds a semicolon further on: it is one string all the same
+        q = "'"
+        chars = [['esc', 39, "\\'"], ord(draw(st.sampled_from(' ,)+-*/&|^%<>')))] + [c for c in chars if c != 39] + [ord(';')] + \
+            [ord(draw(st.sampled_from('x "0')))] * draw(st.integers(0, 2))
     # \0 followed by an octal digit would be read as a longer octal escape
     out = []
     for c in chars:
